@@ -80,6 +80,19 @@ pub fn build_server(max_head: usize) -> Server {
         res.sendr(&Status::OK, &h, std::io::repeat(b'x').take(n))
     });
     b.route(Method::Get, "/err", |_ctx, _res| Err(std::io::Error::other("handler error")));
+    // a body on methods that usually have none: the framing fields decide, not the method
+    for m in [Method::Get, Method::Put, Method::Delete] {
+        b.route(m, "/gecho", |mut ctx, res| {
+            let body = ctx.body().vec()?;
+            res.ok(Headers::empty_nodate(), body)
+        });
+    }
+    // interim response first (Expect: 100-continue), then the body is read and echoed
+    b.route(Method::Post, "/continue", |mut ctx, res| {
+        res.send_100_continue()?;
+        let body = ctx.body().vec()?;
+        res.ok(Headers::empty_nodate(), body)
+    });
     // the handler returns Ok without answering: nothing is sent, the connection stays usable
     b.route(Method::Get, "/silent", |_ctx, _res| Ok(()));
     // the handler fails with an error of the named kind (a failed write to a peer that went away, a truncated upload, ...)
@@ -119,6 +132,11 @@ pub fn build_server(max_head: usize) -> Server {
             h.set_connection_close();
             let _ = res.send0(&Status::of(405), &h);
             PreRoutingAction::Drop
+        }
+        // the hook edits the request's header set (removes an internal field) and lets the request through
+        Some(b"strip") => {
+            req.headers.remove("x-internal-auth");
+            PreRoutingAction::Proceed
         }
         // the hook answers with an empty body through `send` and announces close
         Some(b"dropclosesend") => {
